@@ -271,6 +271,9 @@ func runVariant(self, prop, repo, verif string, v variantMeta) map[string]any {
 		return res
 	}
 	for _, e := range v.Expect {
+		if !strings.HasPrefix(e, prop) {
+			continue // expectations about other properties are checked by those properties' own runs
+		}
 		hit := false
 		for _, b := range bad {
 			if strings.HasPrefix(b, e) {
